@@ -47,8 +47,9 @@ pub enum COp {
     IncBy(usize),
     /// inc() == digit 0
     Inc,
-    /// local handle: inc_by each digit locally, then one flush
-    Batch(Vec<usize>),
+    /// the thread's local handle (kept across batches): inc_by each digit locally, then flush
+    /// (`twice`: flush a second time right away, which must add nothing)
+    Batch { digits: Vec<usize>, twice: bool },
     Read(Via),
     Reset,
 }
@@ -122,22 +123,32 @@ impl Ctr {
         let v = m.get_counter().value();
         (f64_to_exact(v), format!("{:?}", v))
     }
-    fn batch(&self, digits: &[usize]) -> Box<dyn FnOnce() + '_> {
+    fn local(&self) -> LocalH {
         match self {
-            Ctr::F(c) => {
-                let l = c.local();
-                for j in digits {
-                    l.inc_by(unit_u64(*j) as f64);
-                }
-                Box::new(move || l.flush())
+            Ctr::F(c) => LocalH::F(c.local()),
+            Ctr::U(c) => LocalH::U(c.local()),
+        }
+    }
+}
+
+enum LocalH {
+    F(prometheus::local::LocalCounter),
+    U(prometheus::local::LocalIntCounter),
+}
+
+impl LocalH {
+    fn add(&self, digits: &[usize]) {
+        for j in digits {
+            match self {
+                LocalH::F(l) => l.inc_by(unit_u64(*j) as f64),
+                LocalH::U(l) => l.inc_by(unit_u64(*j)),
             }
-            Ctr::U(c) => {
-                let l = c.local();
-                for j in digits {
-                    l.inc_by(unit_u64(*j));
-                }
-                Box::new(move || l.flush())
-            }
+        }
+    }
+    fn flush(&self) {
+        match self {
+            LocalH::F(l) => l.flush(),
+            LocalH::U(l) => l.flush(),
         }
     }
 }
@@ -283,7 +294,7 @@ pub fn generate(rng: &mut Rng, job: &Job) -> Scenario {
                         let k = 2 + rng.usize_below(2);
                         let ds: Vec<usize> = (next_digit..next_digit + k).collect();
                         next_digit += k;
-                        ops.push(COp::Batch(ds));
+                        ops.push(COp::Batch { digits: ds, twice: rng.chance(1, 3) });
                     }
                     _ => {
                         ops.push(COp::IncBy(next_digit));
@@ -324,7 +335,7 @@ pub fn scenario_json(sc: &Scenario) -> Json {
                     .map(|o| match o {
                         COp::IncBy(j) => Json::Str(format!("inc_by(4^{})", j)),
                         COp::Inc => Json::Str("inc()".into()),
-                        COp::Batch(ds) => Json::Str(format!("local inc_by 4^{:?}; flush", ds)),
+                        COp::Batch { digits, twice } => Json::Str(format!("local inc_by 4^{:?}; flush{}", digits, if *twice { "; flush" } else { "" })),
                         COp::Read(v) => Json::Str(format!("read via {}", via_name(*v))),
                         COp::Reset => Json::Str("reset()".into()),
                     })
@@ -366,6 +377,8 @@ pub fn execute(sc: &Scenario, job: &Job, case: u64) -> Execution {
     let sinks: Sinks<CRec> = Sinks::new(sc.threads.len());
     let cfg = job.run_cfg(case, false);
     let outcome = run_threads(&cfg, sc.threads.len(), &|tid| {
+        // one local handle per thread, reused by all of the thread's batches
+        let mut local: Option<LocalH> = None;
         for op in &sc.threads[tid] {
             match op {
                 COp::IncBy(j) => {
@@ -375,14 +388,18 @@ pub fn execute(sc: &Scenario, job: &Job, case: u64) -> Execution {
                 COp::Inc => {
                     sinks.call(tid, || world.handle().inc(), |_| CRec::Add { mask: 1, batch: false });
                 }
-                COp::Batch(ds) => {
-                    let h = world.handle();
-                    let flush = h.batch(ds);
+                COp::Batch { digits, twice } => {
+                    let l = local.get_or_insert_with(|| world.handle().local());
+                    l.add(digits);
                     let mut mask = 0u64;
-                    for j in ds {
+                    for j in digits {
                         mask |= 1 << *j;
                     }
-                    sinks.call(tid, flush, |_| CRec::Add { mask, batch: true });
+                    sinks.call(tid, || l.flush(), |_| CRec::Add { mask, batch: true });
+                    if *twice {
+                        // nothing was accumulated since: this flush must not add anything
+                        sinks.call(tid, || l.flush(), |_| CRec::Add { mask: 0, batch: true });
+                    }
                 }
                 COp::Read(via) => {
                     sinks.call(tid, || world.read(*via), |r| CRec::Read { value: r.0, raw: r.1.clone(), via: *via });
@@ -490,6 +507,9 @@ pub fn check(sc: &Scenario, ex: &Execution) -> Vec<(String, String, String)> {
                 CRec::Add { mask, batch } => (*mask, *batch),
                 _ => unreachable!(),
             };
+            if mask == 0 {
+                continue; // an empty second flush: nothing to find in the value
+            }
             let got = m & mask;
             if got != 0 && got != mask {
                 out.push(("flushed-batch-torn".into(), site_v.clone(), format!("read {} contains digits {:?} of a flushed batch {:?}", raw, mask_to_vec(got), mask_to_vec(mask))));
